@@ -451,6 +451,20 @@ theorem delta_roundtrip (d : Delta) (h : DInv d) :
   · show TimeDelta.deserialize (d.secs, d.nanos) = .ok d
     rw [delta_de_eq d.secs d.nanos (by unfold isI32; omega), if_pos ⟨h0, h1, by unfold nsInRange NS_MAX; omega⟩]
 
+
+/-- the same end to end through ANY tuple format that hands a pair fitting `(i64, i32)` back unchanged
+(audit LOW-4: the carrier is now a parameter with a stated trusted behaviour, like the integer and text
+formats): every valid duration comes back as itself -/
+theorem delta_format_roundtrip (F : PairFormat) (hF : F.Faithful) (d : Delta) (h : DInv d) :
+    deltaRoundTrip F d = .ok d := by
+  obtain ⟨a, b, c⟩ := delta_roundtrip d h
+  unfold deltaRoundTrip
+  have : F.getPair (F.putPair (TimeDelta.serialize d)) = some (TimeDelta.serialize d) := hF _ _ a b
+  rw [this]
+  exact c
+
+example : (⟨Int × Int, id, some⟩ : PairFormat).Faithful := fun _ _ _ _ => rfl
+
 /-- reading any `(i64, i32)` pair: accepted exactly when the nanosecond field is in `0 .. 10⁹` and the
 value lies within ±(2⁶³−1) ms, then it is that value and valid; otherwise an error (never a panic: the
 result type has no such case; a negative `i32` nanosecond field becomes a large `u32` and is refused) -/
@@ -508,6 +522,11 @@ theorem names_deserialize_iff (F : StrFormat) (hF : F.Faithful) (s : List Nat) :
     cases Month.parse s with
     | none => exact ⟨fun h => (by cases h), fun h => (by cases h)⟩
     | some v => exact ⟨fun h => (by injection h with h; rw [h]), fun h => (by injection h with h; rw [h]; rfl)⟩
+
+
+example : lowerS (asciiBytes "MONDAY") = weekdayLong .mon ∧ lowerS (asciiBytes "sEp") = monthShort .sep ∧
+    lowerS (asciiBytes "Mond") ≠ weekdayLong .mon ∧ lowerS (asciiBytes "Mond") ≠ weekdayShort .mon := by
+  decide
 
 /-! ## zone-aware date-times: what the writer cannot express (witnesses of the known findings) -/
 
